@@ -96,6 +96,36 @@ def run(ctx):
             for _ in range(3):                   # two answers: only the first reached one may matter
                 a, b = sorted(rnd.sample(range(n + 1), 2))
                 reqs.append(f"parse {hx} {a}:{rnd.choice('se')} {b}:{rnd.choice('se')}")
+    # the stream ends INSIDE an instruction, at every byte of it — for every kind of operand the parser reads by a different path: ids,
+    # enumerants with parameters, strings, context-dependent literals of a declared 32/64-bit type and of an UNDECLARED type, switch cases
+    # over a declared and an undeclared selector. A parse error, so no `finalize` and an error result, through every entry point
+    I_, Op_ = instgen.Inst, instgen.Op
+    L32_, idr_ = g.vix["LiteralBit32"], g.vix["IdRef"]
+    t64 = I_(g.opv["TypeInt"], "TypeInt", None, 1, [Op_("w", L32_, 64), Op_("w", L32_, 0)])
+    t32 = I_(g.opv["TypeFloat"], "TypeFloat", None, 2, [Op_("w", L32_, 32)])
+    sel = I_(g.opv["Undef"], "Undef", 1, 3, [])
+    lasts = [([], I_(g.opv["Constant"], "Constant", 50, 5, g.literal(False))),
+             ([], I_(g.opv["SpecConstant"], "SpecConstant", 50, 5, g.literal(False))),
+             ([t64], I_(g.opv["Constant"], "Constant", 1, 5, g.literal(True))),
+             ([t32], I_(g.opv["Constant"], "Constant", 2, 5, g.literal(False))),
+             ([], I_(g.opv["Switch"], "Switch", None, None, [Op_("w", idr_, 60), Op_("w", idr_, 9)] + g.literal(False) + [Op_("w", idr_, 9)] + g.literal(False) + [Op_("w", idr_, 9)])),
+             ([t64, sel], I_(g.opv["Switch"], "Switch", None, None, [Op_("w", idr_, 3), Op_("w", idr_, 9)] + g.literal(True) + [Op_("w", idr_, 9)])),
+             ([], I_(g.opv["Name"], "Name", None, None, [Op_("w", idr_, 1), Op_("s", g.vix["LiteralString"], list(b"abcdefgh"))])),
+             ([], I_(g.opv["ExecutionMode"], "ExecutionMode", None, None, [Op_("w", idr_, 1), Op_("w", g.vix["ExecutionMode"], 17), Op_("w", L32_, 1), Op_("w", L32_, 2), Op_("w", L32_, 3)]))]
+    ntails = 0
+    for pre, last in lasts:
+        words = instgen.header()
+        for i_ in pre:
+            words += i_.words()
+        full = instgen.to_bytes(words + last.words())
+        start = 4 * len(words)
+        for cut in range(start, len(full)):
+            hx = full[:cut].hex()
+            for en in ["parse", "parseb"] + (["parsew"] if cut % 4 == 0 else []):
+                reqs.append(f"{en} {hx}")
+                ntails += 1
+            reqs.append(f"parse {hx} {len(pre) + 2}:s")
+    ctx.coverage["truncated_tails"] = ntails
     impl, model = C.differential(ctx, reqs, "parse-script", oracle=oracle, shrink=False)
     for r, a in zip(reqs, impl):
         p = a.split(" | ")
